@@ -66,7 +66,7 @@ class World:
         out = []
         for what, obj, attr, c in self.held:
             now = numpy.asarray(getattr(obj, attr) if attr else obj)
-            if now.shape != c.shape or not numpy.array_equal(now, c):
+            if now.shape != c.shape or not numpy.array_equal(now, c, equal_nan=True):
                 if now.shape == c.shape and numpy.allclose(now, c, rtol=0, atol=1e-13 * max(
                         1.0, float(numpy.max(numpy.abs(c))) if c.size else 1.0)):
                     continue
